@@ -136,7 +136,7 @@ def run_check(tier):
     for r in res:
         c = r['case']; out.cov['obligations'] += 1; out.cov['solver_time_s'] += r['wall']
         if r['verdict'] == 'SUCCESS': out.cov['discharged'] += 1; continue
-        if (r['verdict'] == 'TIMEOUT' or (r['verdict'] == 'ERROR' and 'out of memory' in r['out'] + r['err'])) and tier != 'quick':
+        if (r['verdict'] == 'TIMEOUT' or (r['verdict'] == 'ERROR' and 'out of memory' in (r['out'] + r['err']).lower())) and tier != 'quick':
             # a multi-worker instance that does not come back within the budget is not explored: said so, neither held nor failed
             print('NOT-EXPLORED: %s did not finish within %d s / %d GB' % (r['name'], budget, 24)); out.cov.setdefault('not_explored', []).append(r['name']); out.cov['obligations'] -= 1; continue
         if r['verdict'] != 'FAILED': out.errors.append('%s: %s %s' % (r['name'], r['verdict'], r['err'][-160:].strip().replace('\n', ' '))); continue
